@@ -62,6 +62,23 @@ if __name__ == "__main__":
     import props  # noqa: F401  (registers the remaining properties)
     props.register(prop, run, KERNELS, C01_COVERS)
 
+    # vacuity twins: the first quick run of every property, smallest bounds,
+    # with a final assert(false) that must come back violated
+    for pid, p in PROPS.items():
+        for tier in ("quick", "thorough"):
+            first = p["quick"][0]
+            tw = json.loads(json.dumps(first))
+            tw["params"]["twin"] = 1
+            tw["expect"] = "violation"
+            tw["budget_s"] = 120
+            tw.pop("covers", None)
+            tw["note"] = "vacuity twin: final assert(false) must be reported"
+            tw["params"]["nmax"] = min(tw["params"].get("nmax", 1), 1)
+            tw["params"]["nmin"] = min(tw["params"].get("nmin", 0), tw["params"]["nmax"])
+            if "k" in tw["params"]:
+                tw["params"]["k"] = min(tw["params"]["k"], 2)
+            p[tier] = p[tier] + [tw]
+
     bounds = {}
     for pid, p in sorted(PROPS.items()):
         bounds[pid] = {"quick": {"runs": p["quick"]}, "thorough": {"runs": p["thorough"]},
